@@ -133,7 +133,9 @@ class Run:
         if not self.theorems:
             self.ob("thm:none-found", False, "Props file declares no Theorem")
         # S3 hygiene
-        bad = coqrun.hygiene()
+        roots = [f"Props/{self.pid}.v", "Corr/CorrLib.v"] + [t[:-1] for t in getattr(P, "MODEL_VOS", [f"Model/{self.pid}.vo"])]
+        self.hygiene_files = coqrun.dep_closure(roots)
+        bad = coqrun.hygiene(self.hygiene_files)
         self.ob("hygiene:no-axioms-admits", not bad, "; ".join(bad[:10]))
         if self.tier == "thorough" and ok and os.environ.get("VERIF_COQCHK", "1") == "1":
             self.coqchk()
@@ -412,6 +414,7 @@ class Run:
             ] + ([f"coqchk -o axioms: {self.coqchk_axioms}"] if hasattr(self, "coqchk_axioms") else []),
             "obligation_list": [{"name": n, "discharged": ok} for n, ok, _ in self.obligations],
             "theorems": getattr(self, "theorems", []),
+            "development_files_scanned": getattr(self, "hygiene_files", []),
             "evaluations": getattr(self, "evaluations", 0),
             "distinct_nontrivial": len(getattr(self, "nontrivial", ())),
             "rule": getattr(P, "RULE", "cases generated by tools/props/%s.py; distinct by canonical JSON of the case" % self.pid),
